@@ -1,6 +1,7 @@
 package main
 
 import (
+	"go/token"
 	"fmt"
 	"go/types"
 
@@ -209,12 +210,104 @@ type iterInfo struct {
 	len0  *Term // map length at range start, when it bounds the iteration count
 }
 
-func fnUpdatesMap(fn *ssa.Function, t types.Type) bool {
+// madeHere: v is always a map created by a make in this function (directly, or through a local
+// variable that only ever holds such maps) and is not the value `other`.
+func madeHere(v, other ssa.Value) bool {
+	if _, ok := v.(*ssa.MakeMap); ok {
+		return v != other
+	}
+	ld, ok := v.(*ssa.UnOp)
+	if !ok || ld.Op != token.MUL {
+		return false
+	}
+	cell, ok := ld.X.(*ssa.Alloc)
+	if !ok || cell.Referrers() == nil {
+		return false
+	}
+	if old, ok := other.(*ssa.UnOp); ok && old.Op == token.MUL && old.X == cell {
+		return false
+	}
+	for _, r := range *cell.Referrers() {
+		switch u := r.(type) {
+		case *ssa.Store:
+			if u.Addr != cell {
+				return false // the cell's address escapes into memory
+			}
+			mk, ok := u.Val.(*ssa.MakeMap)
+			if !ok || mk.Referrers() == nil {
+				return false
+			}
+			for _, mr := range *mk.Referrers() {
+				if _, isDbg := mr.(*ssa.DebugRef); mr != r && !isDbg {
+					return false // the new map is also kept somewhere else
+				}
+			}
+		case *ssa.UnOp:
+			if u.Op != token.MUL || u.Referrers() == nil {
+				return false
+			}
+			// the loaded map is only written, read, measured or returned: it is not stored anywhere
+			for _, lr := range *u.Referrers() {
+				switch w := lr.(type) {
+				case *ssa.MapUpdate:
+					if w.Map != u {
+						return false
+					}
+				case *ssa.Lookup, *ssa.Return, *ssa.DebugRef:
+				case *ssa.Store:
+					// copied into the result variable (a local that is only loaded to be returned)
+					rc, ok := w.Addr.(*ssa.Alloc)
+					if !ok || rc.Heap || w.Val != u || !onlyReturned(rc) {
+						return false
+					}
+				default:
+					return false
+				}
+			}
+		case *ssa.DebugRef:
+		default:
+			return false
+		}
+	}
+	return true
+}
+
+// onlyReturned: the local cell is only stored to and loaded for a return.
+func onlyReturned(cell *ssa.Alloc) bool {
+	if cell.Referrers() == nil {
+		return false
+	}
+	for _, r := range *cell.Referrers() {
+		switch u := r.(type) {
+		case *ssa.Store:
+			if u.Addr != cell {
+				return false
+			}
+		case *ssa.UnOp:
+			if u.Op != token.MUL || u.Referrers() == nil {
+				return false
+			}
+			for _, lr := range *u.Referrers() {
+				switch lr.(type) {
+				case *ssa.Return, *ssa.DebugRef:
+				default:
+					return false
+				}
+			}
+		case *ssa.DebugRef:
+		default:
+			return false
+		}
+	}
+	return true
+}
+
+func fnUpdatesMap(fn *ssa.Function, t types.Type, ranged ssa.Value) bool {
 	for _, b := range fn.Blocks {
 		for _, in := range b.Instrs {
 			switch u := in.(type) {
 			case *ssa.MapUpdate:
-				if types.Identical(u.Map.Type().Underlying(), t.Underlying()) {
+				if types.Identical(u.Map.Type().Underlying(), t.Underlying()) && !madeHere(u.Map, ranged) {
 					return true
 				}
 			case ssa.CallInstruction:
@@ -233,7 +326,7 @@ func (e *Engine) rangeInit(fr *Frame, st *State, x *ssa.Range) {
 		it := &iterInfo{isMap: true, t: x.X.Type(), x: v}
 		// without insertions into a map of this type in the function, the loop visits at most
 		// len(m) entries (entries deleted during the iteration are not visited)
-		if !fnUpdatesMap(x.Parent(), x.X.Type()) {
+		if !fnUpdatesMap(x.Parent(), x.X.Type(), x.X) {
 			it.len0 = e.mapLen(st, x.X.Type(), v.term())
 		}
 		fr.iters[x] = it
